@@ -157,7 +157,10 @@ impl<Dst: Write> TableBuilder<Dst> {
             assert!(self.opt.cmp.cmp(&self.prev_block_last_key, key) == Ordering::Less);
         }
 
-        if self.data_block.as_ref().unwrap().size_estimate() > self.opt.block_size {
+        // Never flush a block without entries (its size estimate alone exceeds tiny block sizes).
+        if self.data_block.as_ref().unwrap().entries() > 0
+            && self.data_block.as_ref().unwrap().size_estimate() > self.opt.block_size
+        {
             self.write_data_block(key)?;
         }
 
